@@ -445,6 +445,100 @@ def run_huber_history(ctx, model, scico):
             _check(ctx, "feval.huber_history." + how, case, impl, mod, formula)
 
 
+def run_attr_history(ctx, model, scico):
+    """ATTRIBUTE history on one object: evaluate, assign a new value to a public parameter of the SAME object (radius, delta, beta,
+    l2_axis, scale, y, W, alpha_list), evaluate again on an argument of the same shape and dtype: the value must be the documented
+    formula / the model at the NEW parameter (a jitted `__call__` with `self` static, or branches closed over the old value,
+    keep the old one).  Compared with model, formula and a fresh object."""
+    import scico.functional as F
+    import scico.numpy as snp
+    from scico import linop, loss
+
+    rng = ctx.rng
+    kinds = ["l2ball", "l1ml2", "hubers", "hubern", "l21axis", "scaled", "loss.scale", "loss.y", "sql2.y", "sql2.W", "sql2.scale", "proxavg"]
+    for kind in kinds * ctx.n(2, 8):
+        cplx = bool(rng.random() < 0.25) and kind not in ("proxavg",)
+        shape = (int(rng.integers(2, 5)),) if kind != "l21axis" else (int(rng.integers(2, 4)), int(rng.integers(2, 4)))
+        a = G.dy(rng, shape, cplx)
+        x = snp.array(a)
+        nrm = float(np.sqrt(np.sum(np.abs(a) ** 2)))
+        mod = None
+        if kind == "l2ball":
+            r1, r2 = (nrm * 2 + 1.0, max(nrm / 2, 0.125)) if rng.random() < 0.5 else (max(nrm / 2, 0.125), nrm * 2 + 1.0)  # inside <-> outside
+            obj, attr, new = F.L2BallIndicator(radius=r1), "radius", r2
+            fresh = lambda: F.L2BallIndicator(radius=r2)  # noqa: E731
+            formula = float("inf") if nrm > r2 else 0.0
+            mod = _model(model, "feval", fn="l2ball", cplx=cplx, radius=f2b(r2), x=G.arg_json(x, cplx))
+        elif kind == "l1ml2":
+            b1, b2 = float(rng.integers(0, 5)) / 4, float(rng.integers(5, 9)) / 4
+            obj, attr, new = F.L1MinusL2Norm(beta=b1), "beta", b2
+            fresh = lambda: F.L1MinusL2Norm(beta=b2)  # noqa: E731
+            formula = G.np_leaf({"kind": "l1ml2", "beta": f2b(b2)}, [a])
+            mod = _model(model, "feval", fn="l1ml2", cplx=cplx, beta=f2b(b2), x=G.arg_json(x, cplx))
+        elif kind in ("hubers", "hubern"):
+            d1, d2 = G.pos_dyadic(rng), G.pos_dyadic(rng, hi=8.0) + 4.0
+            sep = kind == "hubers"
+            obj, attr, new = F.HuberNorm(delta=d1, separable=sep), "delta", d2
+            fresh = lambda: F.HuberNorm(delta=d2, separable=sep)  # noqa: E731
+            formula = G.np_leaf({"kind": kind, "delta": f2b(d2)}, [a])
+            mod = _model(model, "feval", fn=kind, cplx=cplx, delta=f2b(d2), x=G.arg_json(x, cplx))
+        elif kind == "l21axis":
+            ax1, ax2 = (0, 1) if rng.random() < 0.5 else (1, 0)
+            obj, attr, new = F.L21Norm(l2_axis=ax1), "l2_axis", ax2
+            fresh = lambda: F.L21Norm(l2_axis=ax2)  # noqa: E731
+            formula = float(np.sum(np.sqrt(np.sum(np.abs(a) ** 2, axis=ax2))))
+            mod = _model(model, "feval", fn="l21axes", cplx=cplx, shape=list(shape), axes=[ax2], x=fs2b(G.il(a, cplx)))
+        elif kind == "scaled":
+            c1, c2 = G.pos_dyadic(rng), G.pos_dyadic(rng) + 4.0
+            obj, attr, new = F.ScaledFunctional(F.L1Norm(), c1), "scale", c2
+            fresh = lambda: F.ScaledFunctional(F.L1Norm(), c2)  # noqa: E731
+            formula = c2 * float(np.sum(np.abs(a)))
+        elif kind in ("loss.scale", "loss.y"):
+            y1, y2 = G.dy(rng, shape, cplx), G.dy(rng, shape, cplx)
+            s1, s2 = G.pos_dyadic(rng), G.pos_dyadic(rng) + 4.0
+            obj = loss.Loss(y=snp.array(y1), f=F.L1Norm(), scale=s1)
+            if kind == "loss.scale":
+                attr, new = "scale", s2
+                fresh = lambda: loss.Loss(y=snp.array(y1), f=F.L1Norm(), scale=s2)  # noqa: E731
+                formula = s2 * float(np.sum(np.abs(a - y1)))
+            else:
+                attr, new = "y", snp.array(y2)
+                fresh = lambda: loss.Loss(y=snp.array(y2), f=F.L1Norm(), scale=s1)  # noqa: E731
+                formula = s1 * float(np.sum(np.abs(a - y2)))
+        elif kind.startswith("sql2."):
+            y1, y2 = G.dy(rng, shape, cplx), G.dy(rng, shape, cplx)
+            w1, w2 = (rng.integers(0, 5, size=shape).astype(np.float64) / 2 for _ in range(2))
+            s1, s2 = G.pos_dyadic(rng), G.pos_dyadic(rng) + 4.0
+            mkW = lambda w: linop.Diagonal(snp.array(w), input_dtype=np.float64)  # noqa: E731
+            obj = loss.SquaredL2Loss(y=snp.array(y1), scale=s1, W=mkW(w1))
+            yy, ww, ss = y1, w1, s1
+            if kind == "sql2.y":
+                attr, new, yy = "y", snp.array(y2), y2
+            elif kind == "sql2.W":
+                attr, new, ww = "W", mkW(w2), w2
+            else:
+                attr, new, ss = "scale", s2, s2
+            fresh = lambda: loss.SquaredL2Loss(y=snp.array(yy), scale=ss, W=mkW(ww))  # noqa: E731
+            formula = float(ss * np.sum(ww * np.abs(yy - a) ** 2))
+            mod = _model(model, "feval", fn="sql2loss", cplx=cplx, scale=f2b(ss), w=fs2b(ww), y=fs2b(G.il(yy, cplx)), ax=fs2b(G.il(a, cplx)))
+        else:
+            obj, attr, new = F.ProximalAverage([F.L1Norm(), F.SquaredL2Norm()], alpha_list=[0.5, 0.5]), "alpha_list", [0.25, 0.75]
+            fresh = lambda: F.ProximalAverage([F.L1Norm(), F.SquaredL2Norm()], alpha_list=[0.25, 0.75])  # noqa: E731
+            formula = 0.25 * float(np.sum(np.abs(a))) + 0.75 * float(np.sum(np.abs(a) ** 2))
+        first = _impl(lambda: float(obj(x)))
+        setattr(obj, attr, new)
+        impl = _impl(lambda: float(obj(x)))
+        fr = _impl(lambda: float(fresh()(x)))
+        case = {"attr-history": kind, "attribute": attr, "cplx": cplx, "shape": list(shape), "x": G.arg_json(x, cplx), "first value": first[1] if first[0] == "ok" else None}
+        ctx.case({k_: case[k_] for k_ in ("attr-history", "attribute", "cplx", "shape")}, ("attr-history", kind, cplx))
+        ctx.count("attr-history:" + kind)
+        _check(ctx, "feval.attr_history." + kind, case, impl, mod if mod is not None else impl, formula)
+        if impl[0] == "ok" and fr[0] == "ok" and not (common.close(impl[1], fr[1], k=64, rtol=1e-9) or (np.isinf(impl[1]) and np.isinf(fr[1]))):
+            ctx.disagree("feval.attr_history.fresh", case, impl[1], fr[1],
+                         oracle=lambda _c, impl=impl, fr=fr, kind=kind, attr=attr: {"what": f"after assigning a new `{attr}` the object evaluates differently from a fresh object built with that value",
+                                                                                   "reused": impl[1], "fresh": fr[1], "class": kind})
+
+
 def run_dist(ctx, model, scico):
     import scico.functional as F
     import scico.numpy as snp
@@ -1046,6 +1140,7 @@ def correspond(ctx, model):
     run_l21_axes(ctx, model, scico)
     run_l21_exhaustive(ctx, model, scico)
     run_huber_history(ctx, model, scico)
+    run_attr_history(ctx, model, scico)
     run_l21_call(ctx, model, scico)
     run_tiny(ctx, model, scico)
     run_nuclear(ctx, model, scico)
@@ -1075,6 +1170,19 @@ def findings(ctx, model):
     ctx.case({"regression": "metric-blockarray"}, ("regression", "metric-blockarray"))
     _check(ctx, "metric.block.mse", {"regression": "metric-blockarray"}, impl, mod, 1.25 / 3)
     ctx.known_finding("metric-blockarray", False)
+    # known finding tvnorm-stale-operator: the operator cached by TVNorm.__call__ ignores a later change of `circular` / `axes`
+    import scico.functional as F
+
+    x = snp.array(np.array([[1.0, -2.0, 3.0], [0.5, 4.0, -1.0]]))
+    tv = F.AnisotropicTVNorm(circular=True, input_dtype=np.float64)
+    v0 = float(tv(x))
+    tv.circular = False
+    v1 = float(tv(x))
+    fresh = float(F.AnisotropicTVNorm(circular=False, input_dtype=np.float64)(x))
+    ctx.known_finding("tvnorm-stale-operator", v0 == 41.0 and v1 == 41.0 and fresh == 27.0)
+    if not (v1 == 41.0 or v1 == fresh):
+        ctx.violation({"kind": "failing-input", "op": "tvnorm attribute history", "x": np.asarray(x).tolist(), "after circular=False": v1, "fresh": fresh}, True,
+                      "TVNorm after `circular = False` is neither the recorded stale value nor the value of a fresh object")
 
 
 def search(ctx, model, why):
@@ -1091,7 +1199,7 @@ def search(ctx, model, why):
     ctx.extra["differing_table_rows"] = rows
     S = {
         "base": lambda c: run_base(c, model, scico), "tiny": lambda c: run_tiny(c, model, scico), "huber": lambda c: run_huber_history(c, model, scico),
-        "l21": lambda c: run_l21_axes(c, model, scico), "l21x": lambda c: run_l21_exhaustive(c, model, scico), "l21c": lambda c: run_l21_call(c, model, scico),
+        "attr": lambda c: run_attr_history(c, model, scico), "l21": lambda c: run_l21_axes(c, model, scico), "l21x": lambda c: run_l21_exhaustive(c, model, scico), "l21c": lambda c: run_l21_call(c, model, scico),
         "nuclear": lambda c: run_nuclear(c, model, scico), "dist": lambda c: run_dist(c, model, scico), "tv": lambda c: run_tv(c, model, scico),
         "tvh": lambda c: run_tv_history(c, model, scico), "proxavg": lambda c: run_proxavg(c, model, scico), "losses": lambda c: run_losses(c, model, scico),
         "lossb": lambda c: run_losses_block(c, model, scico), "unit": lambda c: run_unit_factor(c, scico), "trees": lambda c: run_trees(c, model, scico),
@@ -1101,9 +1209,9 @@ def search(ctx, model, why):
     for r in rows:
         cls = r.split(".")[0]
         if cls in ("L0Norm", "L1Norm", "SquaredL2Norm", "L2Norm", "L1MinusL2Norm", "NonNegativeIndicator", "L2BallIndicator"):
-            pick += ["base", "tiny"]
+            pick += ["base", "tiny", "attr"]
         elif cls == "HuberNorm":
-            pick += ["base", "huber"]
+            pick += ["base", "huber", "attr"]
         elif cls == "L21Norm":
             pick += ["l21x", "l21", "l21c", "base", "tiny"]
         elif cls == "NuclearNorm":
